@@ -40,8 +40,10 @@ ChainTrees == << Call(Call(A, <<>>), <<B>>), Idx(Idx(A, B), C), Prop(Prop(A, "k"
 
 (* depth 3 over one representative per level *)
 Reps == << "=", "or", "and", "|", "^", "&", "==", "<", "<<", "+", "*", "**" >>
-Triples == Cross(Cross(Reps, LAMBDA o : Reps, LAMBDA o1, o2 : <<o1, o2>>), LAMBDA p : Reps, LAMBDA p, o3 : <<p[1], p[2], o3>>)
-TripleTrees == IF ~Deep THEN <<>> ELSE FlattenSeq([i \in 1..Len(Triples) |-> LET o1 == Triples[i][1]  o2 == Triples[i][2]  o3 == Triples[i][3] IN
+QReps == << "or", "&", "==", "<", "<<", "+", "*", "**" >>      \* the quick tier: triples over 8 of the 12 levels
+TReps == IF Deep THEN Reps ELSE QReps
+Triples == Cross(Cross(TReps, LAMBDA o : TReps, LAMBDA o1, o2 : <<o1, o2>>), LAMBDA p : TReps, LAMBDA p, o3 : <<p[1], p[2], o3>>)
+TripleTrees == FlattenSeq([i \in 1..Len(Triples) |-> LET o1 == Triples[i][1]  o2 == Triples[i][2]  o3 == Triples[i][3] IN
    << Mk(o1, Mk(o2, Mk(o3, A, B), C), D), Mk(o1, Mk(o2, A, Mk(o3, B, C)), D), Mk(o1, Mk(o2, A, B), Mk(o3, C, D)),
       Mk(o1, A, Mk(o2, Mk(o3, B, C), D)), Mk(o1, A, Mk(o2, B, Mk(o3, C, D))) >>])
 
